@@ -176,6 +176,11 @@ def r1(ctx):
     ctx.floor(n, 4, "row emission sites", LSR)
 
 
+# rows given to the CSV formatter: non-ASCII text, and values that start with a sign or a spreadsheet trigger character - a cell
+# is the value's own text (a negative number stays a number), whatever it starts with
+CSV_ROWS = (["a\u00e9", "1"], ["b\U00020BB7"], ["-2.5", "=x", "+1", "@a", "-7", "'q", " lead"])
+
+
 class _Tok(str):
     """the text a stand-in serialiser returned: Python's string methods return plain `str`, so the type survives only if the
     analysed code hands the text on untouched"""
@@ -338,7 +343,7 @@ def r2(ctx):
                 return (parts[0] if len(parts) == 1 else "".join(parts),)
             return None
         out = []
-        for row in (["a\u00e9", "1"], ["b\U00020BB7"]):
+        for row in CSV_ROWS:
             for i, v_ in enumerate(row):
                 nm = FMT["csv"] + "::format_element"
                 ps_ = ctx.prog.fns[nm]["params"]
@@ -355,9 +360,9 @@ def r2(ctx):
         return out, selfv
     try:
         out, selfv = csv_rows()
-        want = [("row", interp.some("<csv of %s: \u00e9\U0001F600>" % r_)) for r_ in (["a\u00e9", "1"], ["b\U00020BB7"])]
+        want = [("row", interp.some("<csv of %s: \u00e9\U0001F600>" % r_)) for r_ in CSV_ROWS]
         ok = out == want and len(selfv["records"]) == 0 and all(isinstance(r_[1].args[0], _Tok) for r_ in out)
-        why = "two rows (a, 1) / (b) with non-ASCII values come out as %s" % (out,)
+        why = "three rows (non-ASCII values; values starting with - = + @ ' and a blank) come out as %s" % (out,)
     except interp.Undecided as e:
         ok, why = False, "cannot evaluate the CSV formatter: %s" % e
     ctx.obligation(ok)
